@@ -15,7 +15,8 @@ EXPLANATION = (
     "a successful verify_rrsig, and its TTL is authenticated_ttl(); (G3) verify_rrsig_with_keys only verifies keys whose "
     "proof is Secure, caps key-tag collisions and rejects wildcard-expanded NSEC/NSEC3; (W1/S1) Record.ttl is written in the "
     "validator only under (Secure, Some(ttl)); authenticated_ttl is min(record ttl, original ttl, expiration-now); (S2/G4) the "
-    "cache key hashes data of every record and every RRSIG, `get` returns only under now < expiry, Net errors are not cached.")
+    "cache key hashes data of every record and every RRSIG, `get` returns only under now < expiry, Net errors are not cached; all covered inputs are fed to the ONE hasher state whose "
+    "finish() is the key (a per-record hash folded with a commutative operator loses order and multiplicity).")
 NOT_DECIDED = ("RFC 1982 arithmetic inside SerialNumber::partial_cmp (a value computation), the cryptographic primitive, and "
                "bit-level mutation resistance beyond 'every signed field is an input of the TBS (C05) and of the cache key'.")
 ASSUMPTIONS = ["FULL feature configuration (dnssec-ring); panics/unwinding edges are outside path rules",
